@@ -17,6 +17,8 @@ import (
 
 	"mosn.io/api"
 	v2 "mosn.io/mosn/pkg/config/v2"
+	_ "mosn.io/mosn/pkg/filter/stream/transcoder"
+	_ "mosn.io/mosn/pkg/filter/stream/transcoder/httpconv"
 	"mosn.io/mosn/pkg/metrics"
 	"mosn.io/mosn/pkg/types"
 	"mosn.io/mosn/pkg/upstream/cluster"
@@ -78,7 +80,7 @@ type ConnPlan struct {
 
 // Setup is the proxy configuration of a case.
 type Setup struct {
-	Proto      string    `json:"proto"` // Http1 | bolt | boltpp | tcp
+	Proto      string    `json:"proto"` // Http1 | bolt | boltpp | tcp | h2up (HTTP/1 listener, HTTP/2 cluster)
 	Hosts      []string  `json:"hosts"` // ok | refuse | dead
 	Thr        [4]uint32 `json:"thr"`   // max_requests, max_pending_requests, max_retries, max_connections
 	GlobalMs   int       `json:"global_ms"`
@@ -97,16 +99,17 @@ const (
 // ---------------------------------------------------------------- the rig of one case
 
 type rig struct {
-	t     ev.TB
-	part  string
-	su    Setup
-	ups   []*mesh.Upstream // nil for dead hosts
-	deadF []int
-	addrs []string
-	c     *mesh.Case
-	info  types.ClusterInfo
-	hosts []types.Host // aligned with addrs
-	lsn   types.Metrics
+	poolShutdownMs []int // see Batch.PoolShutdownMs
+	t              ev.TB
+	part           string
+	su             Setup
+	ups            []*mesh.Upstream // nil for dead hosts
+	deadF          []int
+	addrs          []string
+	c              *mesh.Case
+	info           types.ClusterInfo
+	hosts          []types.Host // aligned with addrs
+	lsn            types.Metrics
 
 	holdMu   sync.Mutex
 	hold     chan struct{}
@@ -130,11 +133,17 @@ type rig struct {
 }
 
 func upProto(p string) string {
-	if p == "boltpp" {
+	switch p {
+	case "boltpp":
 		return "bolt"
+	case "h2up":
+		return "Http2"
 	}
 	return p
 }
+
+// h1Down: the clients speak HTTP/1 ("h2up" is an HTTP/1 listener in front of an HTTP/2 cluster: the HTTP/2 pool's books).
+func h1Down(p string) bool { return p == "Http1" || p == "h2up" }
 
 // deadAddr binds a loopback port without listening: connecting to it is refused, and no other process can take the port.
 func deadAddr() (string, int) {
@@ -184,7 +193,15 @@ func newRig(t ev.TB, part string, su Setup) (r *rig, err error) {
 		retry = &v2.RetryPolicy{RetryPolicyConfig: v2.RetryPolicyConfig{RetryOn: su.RetryOn, NumRetries: uint32(su.NumRetries)},
 			RetryTimeout: time.Duration(su.TryMs) * time.Millisecond}
 	}
-	c, err := mesh.NewCase(mesh.Opts{Down: su.Proto, Up: su.Proto, Hosts: r.addrs,
+	down, up := su.Proto, su.Proto
+	var filters []v2.Filter
+	if su.Proto == "h2up" {
+		// protocol conversion is done by the transcoder stream filter, configured the way the repository's own
+		// protocol-convert cases are (without it every request is answered 500)
+		down, up = "Http1", "Http2"
+		filters = []v2.Filter{{Type: "transcoder", Config: map[string]interface{}{"type": "httpTohttp2"}}}
+	}
+	c, err := mesh.NewCase(mesh.Opts{Down: down, Up: up, Hosts: r.addrs, StreamFilters: filters,
 		Timeout: time.Duration(su.GlobalMs) * time.Millisecond, Retry: retry,
 		Cluster: func(cl *v2.Cluster) {
 			// pools per cluster: by default MOSN keeps ONE pool per (protocol, address) for all clusters, and a pool
@@ -298,7 +315,7 @@ func (r *rig) script(req *mesh.Req) mesh.Action {
 	r.count(a.Kind)
 	act := mesh.Action{Kind: "reply", Delay: time.Duration(a.DelayMs) * time.Millisecond, Status: 200,
 		Header: [][2]string{{mesh.TokenHeader, req.Token}}, Body: []byte("re:" + req.Token)}
-	bolt := r.su.Proto != "Http1"
+	bolt := !h1Down(r.su.Proto)
 	if bolt {
 		act.Status = 0
 	}
@@ -847,14 +864,14 @@ func boltStatus(frame []byte) int {
 const clientWait = 30 * time.Second // generous: a miss is inconclusive, never a verdict
 
 func overflowStatus(proto string) int {
-	if proto == "Http1" {
+	if h1Down(proto) {
 		return api.UpstreamOverFlowCode
 	}
 	return 4 // bolt ResponseStatusServerThreadpoolBusy
 }
 
 func okStatus(proto string) int {
-	if proto == "Http1" {
+	if h1Down(proto) {
 		return 200
 	}
 	return 0
